@@ -712,6 +712,10 @@ def db_scenarios(tier):
     # two threads delete the same user: the loser gets KeyError and everything else goes on (error paths release the lock)
     S.append(dict(name="db-del-del", disk=False, users=["u1", "u2"], pre=[["set", "u1", 1]],
                   threads={1: [["del", "u1"], ["in", "u2"]], 2: [["del", "u1"], ["get", "u1"], ["set", "u2", 2]]}))
+    # a reader overlapping a writer of the same user, then reading again (whatever a lookup keeps for later must not
+    # outlive the write)
+    S.append(dict(name="db-get-set-get", disk=False, users=["u1", "u2"], pre=[["set", "u1", 1]],
+                  threads={1: [["get", "u1"], ["get", "u1"]], 2: [["set", "u1", 2], ["get", "u1"]]}))
     S.append(dict(name="db-disk", disk=True, users=["u1", "u2"], pre=[["set", "u2", 2]],
                   threads={1: [["set", "u1", 1], ["get", "u2"]], 2: [["del", "u2"], ["in", "u1"]]}))
     return S
